@@ -1516,4 +1516,20 @@ example :
     (b1tRun exPar1 app true {} evs).hToks = [([0x20, 0, 0, 0, 0, 2], [2, 2])] := by
   decide +kernel
 
+/-- `never_wrong_body_block1_composed_partial` for the system WITH tokens (`b1tStep`): every step of it is a (possibly
+empty) sequence of `b1Step` steps on the state underneath (`b1t_simulated`: a response whose token selects the lg_xmit =
+`rspArrives`; one that selects none = no step; a PUT whose body fits one message = `cliExpire` (the supersede search) then
+`appPut`; lg_xmit time-out = `cliExpire`; lg_crcv time-out = no step), so for EVERY schedule whatever the server hands to
+its application is exactly the client's body with its exact length.  Remaining exclusions as for the `_partial` theorem
+minus "tokens". -/
+theorem never_wrong_body_block1_composed_tokens (P : B1Par) (hP : B1ParOK P) (app : Bytes) (non : Bool)
+    (evs : List B1TEvent) :
+    ∀ o, o ∈ (b1tRun P app non {} evs).net.outs → ∀ b l, o = SrcvOut.deliver b l → b = P.body ∧ l = P.body.length := by
+  obtain ⟨evs', h⟩ := b1tRun_simulated P app non evs {} (t1Inv_init app)
+  have houts : (absB1 (b1tRun P app non {} evs)).outs = (evs'.foldl (b1Step P) (absB1 {})).outs := congrArg B1Sys.outs h
+  have houts' : (b1tRun P app non {} evs).net.outs = (evs'.foldl (b1Step P) {}).outs := houts
+  intro o ho
+  rw [houts'] at ho
+  exact never_wrong_body_block1_composed_partial P hP evs' o ho
+
 end Coap.C09
